@@ -822,7 +822,7 @@ namespace via
           if (!response_.parse(iter, end))
           {
             // if a parsing error (not run out of data)
-            if ((iter != end) || response_.fail())
+            if ((iter != end) || response_.fail() || response_.headers().fail())
             {
               clear();
               return Rx::INVALID;
